@@ -27,6 +27,11 @@ def gen(seed, index):
     a, m, b = sorted(ts)
     qs = [["integrate", a, b], ["integrate", a, m], ["integrate", m, b], ["integrate", a, a], ["average", a, b],
           ["simpson", a, b], ["value_at", a]]
+    if rng.random() < 0.25:
+        # the default-argument forms of the averages: no end = the envelope's duration, no start = 0
+        total = g.starts(e)[1]
+        qs += [["average_all"], ["average_from", max(0, a)], ["average_to", max(0, b)],
+               ["integrate", 0, total], ["integrate", max(0, a), total], ["integrate", 0, max(0, b)]]
     if rng.random() < 0.1:
         qs.append(["integrate", b, a])     # malformed: end before start
     case = ["envq", e] + qs
@@ -122,6 +127,25 @@ def oracle1(case, io, mo):
         return f"average {avg!r} is not integral / (b - a) = {iab / span!r}"
     if a == b and abs(avg - fl(ans[("value_at", a)][1])) > 0:
         return "average over an empty interval is not value_at(start)"
+    if ("average_all",) in ans:
+        # the six queries were appended together: three averages, then the three integrals they have to agree with
+        i = [q[0] for q in case[2:]].index("average_all") + 2
+        avs, ints = case[i:i + 3], case[i + 3:i + 6]
+        try:
+            for qa, qi in zip(avs, ints):
+                key = (qa[0],) + tuple(int(x) for x in qa[1:])
+                lo, hi = int(qi[1]), int(qi[2])
+                if qi[0] != "integrate":
+                    break
+                if hi > lo:
+                    want = val(("integrate", lo, hi)) / ((hi - lo) / TICK)
+                    got = val(key)
+                    if abs(got - want) > 1e-9 * max(1, abs(want)):
+                        return f"{key[0]} (default arguments) is {got!r}, the integral over [{lo}, {hi}] divided by its length is {want!r}"
+        except ValueError as ex:
+            return str(ex)
+        except KeyError as ex:
+            return f"no answer recorded for {ex} (queries and answers out of step: {len(case) - 2} queries, {len(io) - 1} answers)"
     return None
 
 
